@@ -417,7 +417,163 @@ def stats_filtered_oracle(beam):
     return bad
 
 
-def stats_stage(run, n_cases):
+# ---------------------------------------------------------------- statistics of VECTORISED beams (survival with a batch dimension)
+def gen_weight_row(rng, n):
+    while True:
+        if rng.random() < 0.6:
+            w = [rng.choice([1.0, 1.0, 0.0]) for _ in range(n)]
+        else:
+            w = [rng.choice([1.0, 0.5, 0.25, 0.75, 0.3, 0.0]) for _ in range(n)]
+        W = sum(w)
+        if W > 0 and W - sum(v * v for v in w) / W >= 0.3:
+            return w
+
+
+def gen_vec_stats_case(rng):
+    """a beam whose survival probabilities carry a batch dimension of 2-3 entries with a different loss pattern each:
+    mode 'survival'  -- constructed with survival_probabilities of shape (B, n), coordinates shared by the entries
+    mode 'full'      -- coordinates (B, n, 7), charges and survival (B, n): every entry is a beam of its own
+    mode 'aperture'  -- a plain beam through an active Aperture whose x_max (or y_max) is a vector of B half-sizes"""
+    mode = rng.choice(["survival", "full", "aperture", "aperture"])
+    B = rng.choice([2, 3])
+    n = rng.randrange(4, 9)
+    proto = None
+    while proto is None or len(proto["particles"]) != n:
+        proto = gen_stats_case(rng)
+    case = {"mode": mode, "energy": proto["energy"]}
+    if mode == "full":
+        entries = [proto]
+        while len(entries) < B:
+            e = gen_stats_case(rng)
+            if len(e["particles"]) == n:
+                entries.append(e)
+        case.update(particles=[e["particles"] for e in entries], charges=[e["charges"] for e in entries], survival=[e["survival"] for e in entries])
+        return case
+    case.update(particles=proto["particles"], charges=proto["charges"])
+    if mode == "survival":
+        rows = [proto["survival"]]
+        while len(rows) < B:
+            r = gen_weight_row(rng, n)
+            if r not in rows:
+                rows.append(r)
+        case["survival"] = rows
+        return case
+    # aperture: half-sizes strictly between the k-th and (k+1)-th smallest |coordinate| (k >= 2 survivors at least, a different k per entry)
+    axis = rng.choice(["x", "y"])
+    col = 0 if axis == "x" else 2
+    mags = sorted(abs(p[col]) for p in proto["particles"])
+    ks = rng.sample(range(2, n + 1), B)
+    half = [(mags[k - 1] + mags[k]) / 2 if k < n else mags[-1] * 2 for k in ks]
+    case.update(survival=[1.0] * n if rng.random() < 0.7 else [rng.choice([1.0, 1.0, 0.5, 0.75]) for _ in range(n)],
+                aperture={"axis": axis, "half_sizes": half, "shape": rng.choice(["rectangular", "elliptical"])})
+    return case
+
+
+def build_vec(case):
+    """the vectorised beam of a case (for mode 'aperture': after the vectorised aperture) and the list of per-entry scalar beam specs"""
+    import cheetah
+    T = lambda v: torch.tensor(v, dtype=DT)  # noqa: E731
+    b = cheetah.ParticleBeam(T(case["particles"]), T(case["energy"]), particle_charges=T(case["charges"]),
+                             survival_probabilities=T(case["survival"]), dtype=DT)
+    if case["mode"] == "full":
+        entries = [{"type": "particle", "particles": p, "energy": case["energy"], "charges": c, "survival": w}
+                   for p, c, w in zip(case["particles"], case["charges"], case["survival"])]
+        return b, entries
+    if case["mode"] == "survival":
+        return b, [{"type": "particle", "particles": case["particles"], "energy": case["energy"], "charges": case["charges"], "survival": w}
+                   for w in case["survival"]]
+    ap = case["aperture"]
+    hs = T(ap["half_sizes"])
+    other = T(INF)
+    el = cheetah.Aperture(x_max=hs if ap["axis"] == "x" else other, y_max=hs if ap["axis"] == "y" else other, shape=ap["shape"], is_active=True,
+                          name="vap", dtype=DT)
+    out = el.track(b)
+    entries = []
+    for h in ap["half_sizes"]:
+        e1 = cheetah.Aperture(x_max=T(h) if ap["axis"] == "x" else other, y_max=T(h) if ap["axis"] == "y" else other, shape=ap["shape"],
+                              is_active=True, name="sap", dtype=DT)
+        entries.append(observe_pbeam(e1.track(b)))
+    return out, entries
+
+
+def vec_stats_oracle(case):
+    """Every statistic of entry i of the vectorised beam == the statistic of the un-vectorised beam of entry i (same coordinates, charges and
+    survival), which in turn (0/1 survival) == the statistic of the beam with the lost particles deleted.  Returns (problems, entries, observed)."""
+    try:
+        vb, entries = build_vec(case)
+    except Exception as ex:
+        return [f"building / tracking the vectorised beam raised {ex!r}"[:300]], [], []
+    B = len(entries)
+    prob, observed = [], []
+    surv = vb.survival_probabilities
+    if tuple(surv.shape) != (B, len(entries[0]["particles"])):
+        prob.append(f"survival_probabilities of the vectorised beam have shape {tuple(surv.shape)}, expected {(B, len(entries[0]['particles']))}")
+        return prob, entries, observed
+    vec = {}
+    for nme in STAT_NAMES:
+        try:
+            v = getattr(vb, nme)
+            v = torch.as_tensor(v, dtype=DT).reshape(-1).tolist()
+        except Exception as ex:
+            prob.append(f"{nme} of the vectorised beam raised {ex!r}"[:300])
+            continue
+        if len(v) != B:
+            prob.append(f"{nme} of the vectorised beam has {len(v)} entries, expected {B}")
+            continue
+        vec[nme] = v
+    for i, e in enumerate(entries):
+        if surv[i].tolist() != e["survival"]:
+            prob.append(f"entry {i}: survival {surv[i].tolist()} but the un-vectorised aperture gives {e['survival']}")
+            continue
+        a = realgen.build_beam(e)
+        scale = max(abs(v) for p in e["particles"] for v in p[:6])
+        keep = [k for k, v in enumerate(e["survival"]) if v == 1.0]
+        deleted = None
+        if all(v in (0.0, 1.0) for v in e["survival"]) and len(keep) >= 2:
+            deleted = realgen.build_beam({"type": "particle", "particles": [e["particles"][k] for k in keep], "energy": e["energy"],
+                                          "charges": [e["charges"][k] for k in keep], "survival": [1.0] * len(keep)})
+        for nme, v in vec.items():
+            for ref, label in ((a, "un-vectorised beam with the same losses"), (deleted, "beam with the lost particles deleted")):
+                if ref is None:
+                    continue
+                vr = float(getattr(ref, nme))
+                tol = 1e-9 * max(abs(v[i]), abs(vr)) + 1e-12 * (scale * (scale if nme in ("sigma_xpx", "sigma_ypy") else 1.0) if nme != "total_charge" else 1e-12)
+                if not (abs(v[i] - vr) <= tol):
+                    prob.append(f"entry {i} {nme}: vectorised beam {v[i]!r}, {label} {vr!r}")
+    # observation of each entry for the Coq statistics model
+    try:
+        from cheetah.utils.statistics import unbiased_weighted_variance
+        var = torch.as_tensor(unbiased_weighted_variance(vb.x, surv, dim=-1), dtype=DT).reshape(-1).tolist()
+        if not prob and len(var) == B:
+            for i in range(B):
+                observed.append({"mu_x": vec["mu_x"][i], "mu_px": vec["mu_px"][i], "var_x": var[i], "sigma_xpx": vec["sigma_xpx"][i],
+                                 "sigma_x": vec["sigma_x"][i], "total_charge": vec["total_charge"][i], "nsurv": vec["num_particles_survived"][i]})
+    except Exception as ex:
+        prob.append(f"unbiased_weighted_variance on vectorised weights raised {ex!r}"[:300])
+    return prob, entries, observed
+
+
+def shrink_vec_case(case):
+    """keep two entries only, while the failure persists"""
+    try:
+        B = len(case["survival"]) if case["mode"] != "aperture" else len(case["aperture"]["half_sizes"])
+        if B <= 2:
+            return case
+        for drop in range(B):
+            c2 = copy.deepcopy(case)
+            if case["mode"] == "aperture":
+                del c2["aperture"]["half_sizes"][drop]
+            else:
+                for k in ("survival",) + (("particles", "charges") if case["mode"] == "full" else ()):
+                    del c2[k][drop]
+            if vec_stats_oracle(c2)[0]:
+                return c2
+    except Exception:
+        pass
+    return case
+
+
+def stats_stage(run, n_cases, n_vec=0):
     cases, terms, oracle_bad = [], [], []
     for _ in range(n_cases):
         beam = gen_stats_case(run.rng)
@@ -436,9 +592,27 @@ def stats_stage(run, n_cases):
             run.count("stats_filtered_oracle_runs")
         cases.append((beam, o))
         terms.append(stats_term(beam, o))
+    # vectorised beams: survival probabilities with a batch dimension (constructed so, or produced by a vectorised aperture)
+    for _ in range(n_vec):
+        case = gen_vec_stats_case(run.rng)
+        prob, entries, observed = vec_stats_oracle(case)
+        lost = any(v != 1.0 for row in (case["survival"] if case["mode"] != "aperture" else [[0.0]]) for v in row)
+        run.add_case(["stats_vec", case], lost)
+        run.count("stats_vectorised_" + case["mode"])
+        if prob:
+            case = shrink_vec_case(case)
+            oracle_bad.append({"kind": "stats_vectorised", "case": case, "problems": vec_stats_oracle(case)[0] or prob,
+                               "relation": "every statistic of entry i of a beam with vectorised survival == that statistic of the un-vectorised beam of "
+                                           "entry i == (0/1 survival) that of the beam with the lost particles deleted"})
+            continue
+        for e, o in zip(entries, observed):
+            if all(math.isfinite(v) for v in o.values()):
+                run.count("stats_vectorised_entries")
+                cases.append((dict(e, vectorised_entry_of=case["mode"]), o))
+                terms.append(stats_term(e, o))
     if cases:
         run.sample({"stats_beam": cases[0][0], "observed": cases[0][1]})
-    failing = common.run_shards(PID, "stats", PREAMBLE, terms, "st_check", shard=40, jobs=8)
+    failing = common.run_shards(PID, "stats", PREAMBLE, terms, "st_check", shard=50, jobs=8)
     run.cov["traces_validated_against_impl"] += len(cases)
     return cases, failing, oracle_bad
 
@@ -589,6 +763,8 @@ def recheck(item):
         return prob
     if k == "stats_filtered":
         return stats_filtered_oracle(item["beam"]) or []
+    if k == "stats_vectorised":
+        return vec_stats_oracle(item["case"])[0]
     if k == "real_lattice":
         st, prob = energy_oracle(item["lattice"], item["beam"])
         return prob
@@ -605,7 +781,9 @@ def main(tier, replay=None):
                        "on dyadic beams -- exact comparison of Segment.track with the Q instance of the generic Segment model; (3) statistics of "
                        "random beams with 0/1 and fractional survival vs the exact rational model (2^-36 relative, checked in Coq over Q); "
                        "(4) property oracles on the implementation: random real lattices with cavities x both beam types (energy, charges, count, "
-                       "survival range/monotone, blocking screen), statistics with lost particles vs particles deleted. Non-trivial = active "
+                       "survival range/monotone, blocking screen), statistics with lost particles vs particles deleted; (5) vectorised beams (batch of 2-3, a "
+                       "different loss pattern per entry; survival constructed with a batch dimension or produced by a vectorised Aperture): every "
+                       "statistic of every entry vs the un-vectorised beam / the beam with the lost particles deleted, and vs the Q model. Non-trivial = active "
                        "aperture with surviving input / lattice with an active aperture or blocking screen / beam with a lost particle / lattice "
                        "with a live cavity; distinct by full case content.")
     if replay:
@@ -617,7 +795,7 @@ def main(tier, replay=None):
     ap_cases, ap_fail, ap_bad = aperture_stage(run, 5000 if thorough else 400)
     par_bad = parameter_passthrough(run, 200 if thorough else 30)
     lat_cases, lat_fail, lat_bad = exact_lattice_stage(run, 3000 if thorough else 250, 3 if thorough else 2)
-    st_cases, st_fail, st_bad = stats_stage(run, 3000 if thorough else 300)
+    st_cases, st_fail, st_bad = stats_stage(run, 3000 if thorough else 300, 600 if thorough else 40)
     real_bad = energy_stage(run, 1500 if thorough else 70)
     run.cov["tested_only"] = ["energy accounting / charge / survival invariants on lattices of all real element classes (float64, 1e-9 relative): "
                               "the Coq theorems cover them modulo the leaf contract, which is discharged in Coq only for the modelled classes",
